@@ -20,7 +20,8 @@ pub enum IOp {
 /// a second, larger interner, the only public way to obtain a `Symbol`.
 pub fn run_interner(ops: &[IOp]) -> String {
     let mut donor: Interner<u32> = Interner::new();
-    for v in 0..40u32 {
+    let top = ops.iter().map(|o| if let IOp::Resolve(k) = o { *k + 1 } else { 0 }).max().unwrap_or(0).max(40);
+    for v in 0..top {
         donor.intern_or_get(v);
     }
     let mut it: Interner<u32> = Interner::new();
@@ -53,7 +54,7 @@ fn gen_iops(r: &mut Rng, len: usize, alphabet: u64) -> Vec<IOp> {
         .map(|_| match r.below(10) {
             0..=4 => IOp::Intern(r.below(alphabet) as u32),
             5..=6 => IOp::Get(r.below(alphabet + 2) as u32),
-            7..=8 => IOp::Resolve(r.below(alphabet + 6).min(39) as u32),
+            7..=8 => IOp::Resolve(r.below(alphabet + 6) as u32),
             _ => IOp::Elements,
         })
         .collect()
@@ -85,9 +86,39 @@ pub fn interner(r: &mut Rng, n: u64, thorough: bool, out: &mut Out) {
             }
         }
     }
+    if !gen::small() {
+        // fill histories, the same in every run: k distinct values interned one by one, each insertion followed at once by look-ups
+        // of the newest, the oldest and a middle value (whatever the table does at a size threshold shows on the next call),
+        // then everything interned and looked up once more
+        for k in [1u32, 2, 7, 8, 9, 15, 16, 17, 18, 31, 32, 33, 34, 63, 64, 65, 127, 128, 129, 255, 256, 257, 300] {
+            for order in 0..2 {
+                let val = |i: u32| if order == 0 { i } else { k - 1 - i };
+                let mut ops = vec![];
+                for i in 0..k {
+                    ops.push(IOp::Intern(val(i)));
+                    ops.push(IOp::Get(val(i)));
+                    ops.push(IOp::Get(val(0)));
+                    ops.push(IOp::Get(val(i / 2)));
+                    ops.push(IOp::Resolve(i));
+                    if i % 16 == 15 || i + 1 == k {
+                        ops.push(IOp::Intern(val(i)));
+                        ops.push(IOp::Intern(val(0)));
+                    }
+                }
+                for i in 0..k {
+                    ops.push(IOp::Intern(val(i)));
+                    ops.push(IOp::Get(val(i)));
+                }
+                ops.push(IOp::Resolve(k));
+                ops.push(IOp::Elements);
+                out.line(&format!("interner f{} {}", case, run_interner(&ops)));
+                case += 1;
+            }
+        }
+    }
     for _ in 0..n {
-        let len = r.below(if gen::small() { 7 } else if thorough { 200 } else { 60 }) as usize;
-        let alphabet = if gen::small() { 3 } else { *r.pick(&[2u64, 4, 8, 30]) };
+        let alphabet = if gen::small() { 3 } else if r.chance(1, 12) { *r.pick(&[33u64, 65, 130, 260]) } else { *r.pick(&[2u64, 4, 8, 30]) };
+        let len = r.below(if gen::small() { 7 } else if alphabet > 30 { 3 * alphabet } else if thorough { 200 } else { 60 }) as usize;
         let mut ops = gen_iops(r, len, alphabet);
         ops.push(IOp::Elements);
         out.line(&format!("interner {} {}", case, run_interner(&ops)));
@@ -196,6 +227,36 @@ fn perturb(r: &mut Rng, mut t: Type<PortableForm>) -> Type<PortableForm> {
 }
 
 pub fn builder(r: &mut Rng, n: u64, thorough: bool, out: &mut Out) {
+    if !gen::small() {
+        // fill histories, the same in every run: k distinct small types registered one by one (the newest, the oldest and a middle
+        // one re-registered and read back straight away), then all of them once more
+        for k in [1u32, 2, 15, 16, 17, 31, 32, 33, 63, 64, 65, 255, 256, 257] {
+            let mk = |i: u32| -> Type<PortableForm> {
+                Type::new(
+                    Path::from_segments_unchecked(vec![format!("m{}", i % 7), format!("T{}", i)]),
+                    Vec::new(),
+                    scale_info::TypeDefSequence::new((i / 2).into()),
+                    if i % 3 == 0 { vec![format!("d{i}")] } else { vec![] },
+                )
+            };
+            let mut ops = vec![];
+            for i in 0..k {
+                ops.push(BOp::Next);
+                ops.push(BOp::Reg(mk(i)));
+                ops.push(BOp::Reg(mk(i)));
+                ops.push(BOp::Reg(mk(0)));
+                ops.push(BOp::Reg(mk(i / 2)));
+                ops.push(BOp::Get(i));
+                ops.push(BOp::Get(i + 1));
+            }
+            for i in 0..k {
+                ops.push(BOp::Reg(mk(k - 1 - i)));
+            }
+            ops.push(BOp::Next);
+            ops.push(BOp::Finish);
+            out.line(&format!("builder f{} 1 {}", k, run_builder(&ops)));
+        }
+    }
     for case in 0..n {
         let len = r.below(if gen::small() { 5 } else if thorough { 60 } else { 25 }) as usize;
         // a small pool of values forces duplicates arriving after unrelated insertions
